@@ -152,13 +152,27 @@ class PauseRace:
     @staticmethod
     def _close(st):
         # stop the manager server of this instance, if it has one we can see (processes are also reaped at exit)
-        for v in list(vars(st).values()):
-            sd = getattr(v, "shutdown", None)
-            if callable(sd) and type(v).__module__.startswith("multiprocessing"):
-                try:
-                    sd()
-                except Exception:  # noqa
-                    pass
+        seen = set()
+
+        def visit(obj, depth):
+            try:
+                vals = list(vars(obj).values())
+            except TypeError:
+                return
+            for v in vals:
+                if id(v) in seen:
+                    continue
+                seen.add(id(v))
+                mod = type(v).__module__ or ""
+                sd = getattr(v, "shutdown", None)
+                if callable(sd) and mod.startswith("multiprocessing"):
+                    try:
+                        sd()
+                    except Exception:  # noqa
+                        pass
+                elif depth < 2 and mod.split(".")[0] == "hashstore" and not isinstance(v, type):
+                    visit(v, depth + 1)
+        visit(st, 0)
 
     def run(self, site):
         """Returns dict(paused_at, child_finished_during_pause, outcomes, final_in_spec, ...)."""
